@@ -5,6 +5,7 @@ cd "$(dirname "$0")"
 export GOFLAGS=-mod=mod GOPROXY=off GOWORK=off
 unset GOSUMDB || true
 mkdir -p .cache evidence replays harness/bin
+python3 genregistry.py
 if [ -f extract/extract.py ]; then python3 extract/extract.py /repo lean/PCV/Gen; fi
 cp /repo/go.sum harness/go.sum
 (cd harness && go build -tags verif -o bin/pcvh ./cmd/pcvh)
